@@ -577,20 +577,25 @@ pub struct LimitCase {
     pub audio: bool,
     /// total media payload = 2^32 - below bytes
     pub below: u32,
+    /// true: the recording ends with small samples (their START offsets lie beyond 2^32 in a fast-start file);
+    /// false: it ends with a 64 MiB sample (only its end crosses 2^32)
+    #[serde(default)]
+    pub small_tail: bool,
 }
 
 pub fn limit_cases(t: Tier) -> Vec<LimitCase> {
     let mut v = vec![
         // mdat payload of 2^32 - 4 bytes: the 8-byte header no longer fits the 32-bit box size (moov at the end)
-        LimitCase { fast_start: false, audio: false, below: 4 },
+        LimitCase { fast_start: false, audio: false, below: 4, small_tail: false },
         // mdat box fits (8 + payload = 2^32 - 101) but ftyp + moov in front push the last chunk offsets beyond 2^32
-        LimitCase { fast_start: true, audio: true, below: 109 },
+        LimitCase { fast_start: true, audio: true, below: 109, small_tail: true },
     ];
     if t == Tier::Thorough {
-        v.push(LimitCase { fast_start: false, audio: true, below: 9 }); // 8 + payload = 2^32 - 1: fits exactly
-        v.push(LimitCase { fast_start: false, audio: true, below: 8 }); // one byte too many
-        v.push(LimitCase { fast_start: true, audio: false, below: 4000 }); // single chunk: everything fits
-        v.push(LimitCase { fast_start: true, audio: true, below: 1 << 20 }); // comfortably below: must succeed
+        v.push(LimitCase { fast_start: true, audio: true, below: 109, small_tail: false });
+        v.push(LimitCase { fast_start: false, audio: true, below: 9, small_tail: true }); // 8 + payload = 2^32 - 1: fits exactly
+        v.push(LimitCase { fast_start: false, audio: true, below: 8, small_tail: false }); // one byte too many
+        v.push(LimitCase { fast_start: true, audio: false, below: 4000, small_tail: true }); // single chunk: everything fits
+        v.push(LimitCase { fast_start: true, audio: true, below: 1 << 20, small_tail: true }); // comfortably below: must succeed
     }
     v
 }
@@ -623,8 +628,19 @@ pub fn eval_limit(c: &LimitCase) -> Outcome {
     };
     let audio_total: u64 = audio_pkts.iter().map(|p| p.len() as u64).sum();
     let video_total = target - audio_total;
-    let base = video_total / n_frames;
-    let frame_len = |i: u64| -> usize { (if i + 1 == n_frames { video_total - base * (n_frames - 1) } else { base }) as usize };
+    // small_tail: 60 large frames, then four frames of a few hundred bytes (with the audio packets next to them)
+    let n_big = if c.small_tail { n_frames - 4 } else { n_frames - 1 };
+    let tail_each = 300u64;
+    let base = if c.small_tail { (video_total - 3 * tail_each - 400) / n_big } else { video_total / n_frames };
+    let frame_len = |i: u64| -> usize {
+        (if i < n_big {
+            base
+        } else if i + 1 == n_frames {
+            video_total - base * n_big - if c.small_tail { 3 * tail_each } else { 0 }
+        } else {
+            tail_each
+        }) as usize
+    };
     // frame i: codec header, a 16-byte tag, then the constant byte (i + 1)
     let frame = |i: u64| -> Vec<u8> {
         let hdr = if i == 0 { &key_hdr } else { &delta_hdr };
@@ -645,7 +661,9 @@ pub fn eval_limit(c: &LimitCase) -> Outcome {
         for i in 0..n_frames {
             let f = frame(i);
             m.write_video(i as f64 / 30.0, &f, i == 0).map_err(|e| format!("write_video {}: {}", i, e))?;
-            if let Some(p) = audio_pkts.get(i as usize) {
+            // audio packets accompany the first frames, or (small_tail) the last ones
+            let ai = if c.small_tail { (i + 20).checked_sub(n_frames) } else { Some(i) };
+            if let Some(p) = ai.and_then(|k| audio_pkts.get(k as usize)) {
                 m.write_audio(i as f64 / 30.0, p).map_err(|e| format!("write_audio {}: {}", i, e))?;
             }
         }
